@@ -29,6 +29,18 @@ CLAIMED = {
          "TLC checks the transcription of the save preparation against the sliver relation for every interval tier x span override x threshold of the "
          "grid universe; the same cases and random tiers on exact dyadic grids around the threshold are saved by the real code in all four formats, "
          "decoded by the TLA+ reader and judged by TLC."),
+ "C16": ("spec/MC_Audio.tla (edit mode) + spec/AudioImpl.tla + spec/AudioProp.tla + spec/Trace_Audio.tla", "5 (C16)",
+         "TLC explores the audio state machine (recordings as sequences of distinct sample ids, every time on the quarter-sample grid, edit "
+         "histories) checking the transcription of Wav's slice arithmetic against the list-of-samples relations; every transition is replayed on "
+         "real Wav objects for several (rate, width), plus random recordings, live edit histories, bytes/save/open/QueryWav round trips."),
+ "C17": ("spec/MC_Audio.tla (read mode) + spec/AudioImpl.tla (invertIntervalList, readFramesAtTimes) + spec/AudioProp.tla", "5 (C17)",
+         "TLC enumerates every keep/delete interval list on the quarter-sample grid x replacement and checks the transcription against the "
+         "kept-stretches relation; the cases are replayed on real wave files; generators, extractSubwav and splitAudioOnTier (files, cropped "
+         "TextGrids, name styles) are exercised on random inputs and judged by TLC."),
+ "C18": ("spec/ZeroCross.tla (explicit loop machine: Termination, Progress, ResultOK) + spec/ZeroCrossProp.tla", "5 (C18)",
+         "TLC checks termination (liveness under weak fairness on the unconstrained Spec) and genuineness of every returned crossing for all "
+         "recordings over {-2..2} up to the length bound x on-sample targets x steps; each run is replayed on the real findNearestZeroCrossing "
+         "under a hang guard; tgBoundariesToZeroCrossings and audioSplice are judged on random textgrids."),
  "C05": ("spec/MC_Tier.tla + spec/TierProp.tla (WFClauses) + spec/Trace_Tier.tla", "5 (C05)",
          "TLC checks RecvWF/NoFail on the tier state machine for all 16 operations from every well-formed start state; every "
          "transition, random millisecond-grid vectors and random live histories (<= 12 steps, exact dyadic arithmetic) are executed on "
